@@ -320,6 +320,17 @@ def _one(ctx, rng, T, given=None, sample=False, force_pair=False, variant=None):
     if not opts.get("distributed_slack", True):
         return _one_bypass(ctx, net, opts, T, case, net_js)
     err = None
+    # success flag of every Newton pass (the q-limit loop of enforce_q_lims runs several)
+    import pandapower.pf.run_newton_raphson_pf as RNR
+    passes = []
+    orig_pass = RNR._run_ac_pf_without_qlims_enforced
+
+    def spy_pass(ppci, options):
+        out = orig_pass(ppci, options)
+        passes.append(bool(out[1]))
+        return out
+
+    RNR._run_ac_pf_without_qlims_enforced = spy_pass
     with _NormSpy(net) as spy:
         try:
             pp.runpp(net, **opts)
@@ -329,6 +340,11 @@ def _one(ctx, rng, T, given=None, sample=False, force_pair=False, variant=None):
             err = type(e).__name__
         except Exception as e:
             err = "raise:" + type(e).__name__
+    RNR._run_ac_pf_without_qlims_enforced = orig_pass
+    # guard of the recorded finding C10-qlim-unconverged-pass: enforce_q_lims and a pass before the last one did not converge
+    unconv_pass = bool(opts.get("enforce_q_lims")) and len(passes) >= 2 and not all(passes[:-1])
+    if unconv_pass and err is None:
+        ctx.count("qlim_loop_continued_after_unconverged_pass")
     ctx.count("outcome_" + (err or "ok"))
     if spy.rec is not None:
         r = spy.rec
@@ -437,6 +453,7 @@ def _one(ctx, rng, T, given=None, sample=False, force_pair=False, variant=None):
     if any(w < 0 for w in allw):
         ctx.count("negative_weight_accepted_ratio_law_not_applied")
         ratios, xr, keep_bad = [], [], []
+    x.unconv_pass = unconv_pass
     T["orc"].append((x, ratios, xr, keep_bad, xws, others, case, bal))
     ctx.case({"net_sha": hashlib.sha1(net_js.encode()).hexdigest(), "opts": opts}, nontrivial=nontriv,
              sample={"input": {"ext_grid_w": [float(v) for v in net.ext_grid.slack_weight.values], "gen_w": [float(v) for v in net.gen.slack_weight.values],
@@ -451,7 +468,14 @@ def _judge(ctx, T, gen_ok, xw_ok):
             refv = allr[0][1]
             for lab, r, k in allr[1:]:
                 if abs(r - refv) > 1e-5 * max(1.0, abs(refv)):
-                    ctx.violation("spec", "%s: deviation/weight = %.8g, %s: %.8g" % (lab, r, allr[0][0], refv), case)
+                    if getattr(x, "unconv_pass", False):
+                        # recorded finding: the q-limit loop went on after a pass that did not converge; the slack shares pfsoln
+                        # derived from that unconverged state stay in gen PG for the next pass, which then converges around them
+                        ctx.violation("C10-qlim-unconverged-pass", "%s: deviation/weight = %.8g, %s: %.8g (enforce_q_lims: an earlier pass of "
+                                      "the q-limit loop did not converge)" % (lab, r, allr[0][0], refv), case)
+                        ctx.count("known:C10-qlim-unconverged-pass")
+                    else:
+                        ctx.violation("spec", "%s: deviation/weight = %.8g, %s: %.8g" % (lab, r, allr[0][0], refv), case)
         for k, r_ in bal:
             g = pf.py_guards(x, k)
             if not all(g[:2]):
